@@ -137,6 +137,11 @@ func H_C09_map() {
 	case 0:
 		if !isArrayKey(LNumber(q.f)) {
 			VAssert(agrees(tb.RawGetH(q.lvalue()), qn, qv), "map: RawGetH agrees on hash-part number keys")
+			if qi := int32(q.f); float64(qi) == q.f {
+				// the integer accessor reads back what RawSetInt (or any other store) put under an integer
+				// outside the array range: zero, negative and large integers
+				VAssert(agrees(tb.RawGetInt(int(qi)), qn, qv), "map: RawGetInt agrees on integer keys outside the array range")
+			}
 		} else {
 			VAssert(agrees(tb.RawGetInt(int(q.f)), qn, qv), "map: RawGetInt agrees on array keys")
 		}
